@@ -50,6 +50,7 @@ def render(dec, pc=None):
         i = int(t[1]); i = i - (1 << 26) if i >= (1 << 25) else i
         return f"b\t#{4 * i}"
     if t[0] == "NOP": return "nop"
+    if t[0] == "BTI": return ["bti", "bti\tc", "bti\tj", "bti\tjc"][int(t[1])]
     if t[0] == "ADRP":
         i = int(t[2]); i = i - (1 << 21) if i >= (1 << 20) else i
         return f"adrp\tx{t[1]}, #{4096 * i}"
@@ -59,7 +60,7 @@ def render(dec, pc=None):
 def run(res, tier, seed, replay):
     res.corr_diffs, res.unknown = [], []
     res.cov["rule"] = ("sim (unmodified arm64_codegenerator.rs / utils.rs / patch_arm64.rs compiled on the host, Linux and macOS cfg variants): every 16-bit chunk value in each of the 4 positions of the fake address (thorough: all 65 536 x 4; quick: edge values + 600 random), "
-                       "entry displacements at every word within +-40 bytes of +-128 MiB and random inside/outside, far displacements congruent to an in-range one modulo 2^28..2^44, pc/target pairs up to +-8 GiB with page-edge offsets for the macOS long form, both boolean values; bytes vs the extracted EncArm64 model; "
+                       "entry displacements at every word within +-40 bytes of +-128 MiB and random inside/outside, far displacements congruent to an in-range one modulo 2^28..2^44, pc/target pairs up to +-8 GiB with page-edge offsets for the macOS long form, both boolean values; functions whose first instruction is a landing pad (bti c / bti jc), paciasp, a branch or a nop (the content being replaced must not matter); bytes vs the extracted EncArm64 model; "
                        "monitor: the implementation's bytes executed with the extracted A64 semantics must reach exactly the trampoline and then exactly the fake writing only x9/x16 (x0 for the boolean); every distinct instruction word is also disassembled with llvm-mc and compared with the Coq decoder; "
                        "distinct = distinct (variant, entry form, displacement class, outcome, chunk position)")
     res.cov["trusted_base"] = vlib.TRUSTED_COMMON + ["L0 A64 fragment (coq/A64.v) from the Arm ARM field layouts, cross-checked against llvm-mc-14 on every distinct word observed", "harness/sim shim and build.rs source preparation"]
@@ -73,6 +74,12 @@ def run(res, tier, seed, replay):
     raw = gen_cases(r, tier)
     raw = [(k, f, (j if abs(j - f) >= 64 else j + 0x2000), x) for (k, f, j, x) in raw]      # a fresh mapping never overlaps the function's entry
     cases = [(f"a{i}", "arm64", k, f, j, x) for i, (k, f, j, x) in enumerate(raw)]
+    # what the function's first instruction IS before patching must not matter: landing pads (bti c / bti jc), paciasp, a branch, a nop
+    PRE = ["5f2403d5", "df2403d5", "3f2303d5", "1f2003d5", "00000014", "fd7bbfa9"]
+    for i in range(60 if tier == "quick" else 3000):
+        f = r.randrange(0x10000, 0x7fff00000000) & ~3; j = (f & ~0xfff) + 0x1000 * r.choice([x for x in range(-3000, 3000) if x not in (0, 1)])
+        kind = "bool" if i % 5 == 4 else "exec"
+        cases.append((f"p{i}", "arm64", kind, f, j, (i & 1) if kind == "bool" else (r.getrandbits(48) | 1), "pre=" + PRE[i % len(PRE)]))
     distinct = set(); words = {}
     for variant, march in (("linux", "arm64"), ("macos", "arm64m")):
         impl = simlib.run_sim(bins, "debug", variant, cases)
@@ -83,7 +90,12 @@ def run(res, tier, seed, replay):
             if cid not in impl or cid not in model: res.broke("correspondence: missing output", cid); continue
             a = simlib.canon_impl(impl[cid]); b = simlib.canon_model(model[cid])
             case = dict(id=cid, variant=variant, kind=c[2], func=hex(c[3]), jit=hex(c[4]), x=hex(c[5]))
-            if a != b: res.corr_diffs.append(dict(case=case, impl=a, model=b))
+            if len(c) > 6:
+                strip = lambda st_ev: (st_ev[0], [" ".join(e.split()[:2] + e.split()[3:]) if e.startswith("G ") else e for e in st_ev[1]])
+                g = [e for e in a[1] if e.startswith("G ")]
+                if g and not g[0].split()[2].startswith(c[6][4:]): res.violation("the saved original bytes are not the function's first bytes", case, impl[cid])
+                if strip(a) != strip(b): res.corr_diffs.append(dict(case=case, impl=a, model=b))
+            elif a != b: res.corr_diffs.append(dict(case=case, impl=a, model=b))
             ist, iev = a
             d = c[4] - c[3]
             dcls = "in" if -R27 <= d < R27 else ("edge" if abs(abs(d) - R27) <= 64 else "far")
